@@ -840,6 +840,10 @@ func (c *Conn) advanceFrame() (int, error) {
 		if err != nil {
 			return noFrame, err
 		}
+		// The most significant bit of the 64 bits length MUST be 0, see RFC 6455 section 5.2.
+		if p[0]&0x80 != 0 {
+			return noFrame, c.handleProtocolError("frame length with most significant bit set")
+		}
 		c.readRemaining = int64(binary.BigEndian.Uint64(p))
 	}
 
